@@ -79,6 +79,9 @@ func init() {
 			{Name: "gofn-returns-unnormalised", Rule: "GOFN-NORM", File: "pkg/eval/go_fn.go", Old: "\t\t\terr := out.Put(vals.FromGo(ret.Interface()))", New: "\t\t\terr := out.Put(ret.Interface())", Fire: true},
 			{Name: "revert-fix-pow-zero", Rule: "EXACT-ZERO", File: "pkg/mods/math/math.go", Old: "\t\t\tif base.Sign() == 0 {\n\t\t\t\t// A negative power of exact zero is a division by exact zero.\n\t\t\t\treturn nil, eval.ErrDivideByZero\n\t\t\t}\n", New: "", Fire: true, Quick: true},
 			{Name: "rem-drop-zero-check", Rule: "EXACT-ZERO", File: "pkg/eval/builtin_fn_num.go", Old: "\tif b == 0 {\n\t\treturn 0, ErrDivideByZero\n\t}\n\tif a, ok := a.(int); ok {", New: "\tif a, ok := a.(int); ok {", Fire: true},
+			{Name: "div-zero-dividend-checked-only-with-divisors", Rule: "EXACT-ZERO", File: "pkg/eval/builtin_fn_num.go", Old: "\tif rawNums[0] == 0 {\n\t\tif len(rawNums) == 1 {", New: "\tif rawNums[0] == 0 && len(rawNums) > 1 {\n\t\tif len(rawNums) == 1 {", Fire: true, Want: "div"},
+			{Name: "div-drop-divisor-loop", Rule: "EXACT-ZERO", File: "pkg/eval/builtin_fn_num.go", Old: "\tfor _, num := range rawNums[1:] {\n\t\tif num == 0 {\n\t\t\treturn nil, ErrDivideByZero\n\t\t}\n\t}\n\tif rawNums[0] == 0 {", New: "\tif rawNums[0] == 0 {", Fire: true, Want: "div"},
+			{Name: "benign-div-names-the-dividend", Rule: "EXACT-ZERO", File: "pkg/eval/builtin_fn_num.go", Old: "\tif rawNums[0] == 0 {\n\t\tif len(rawNums) == 1 {", New: "\tdividend := rawNums[0]\n\tif dividend == 0 {\n\t\tif len(rawNums) == 1 {", Fire: false},
 		},
 	})
 }
@@ -760,7 +763,7 @@ func runTotalRecurse(p *core.Program, r *core.Report, cmpFn, cmpTotal *ssa.Funct
 // ---------- C10 ----------
 
 func runC10(p *core.Program, r *core.Report) {
-	order := p.Func(pkgEval, "order")
+	order := builtinFn(p, "eval:order", pkgEval, "order")
 	less := p.Method(pkgEval, "slice", "Less")
 	swap := p.Method(pkgEval, "slice", "Swap")
 	if !r.Anchor("STABLE", "eval.order, (*eval.slice).Less, (*eval.slice).Swap", order != nil && less != nil && swap != nil) {
